@@ -147,7 +147,14 @@ def judge(pr0, snap, out, sig):
     k3 = k[:3]
     fresh = lambda: copy.deepcopy(pr0)
 
+    ncall = [0]
+
     def call(f, *a, **kw):
+        # an argument that has its documented default value (normalize=True, extrapolate=True, closure='HNC') is left out on every
+        # second call: both spellings of the default must behave alike
+        ncall[0] += 1
+        if ncall[0] % 2:
+            kw = {k_: v for k_, v in kw.items() if (k_, v) not in (('normalize', True), ('extrapolate', True), ('closure', 'HNC'))}
         with warnings.catch_warnings():
             warnings.simplefilter('ignore')
             with np.errstate(all='ignore'):
